@@ -404,6 +404,9 @@ func (b *AESGCMBarrier) ReloadKeyring(ctx context.Context) error {
 	}
 
 	// Verify the term is always just one
+	if len(out.Value) < 4 {
+		return errors.New("keyring record too short")
+	}
 	term := binary.BigEndian.Uint32(out.Value[:4])
 	if term != initialKeyTerm {
 		return errors.New("term mis-match")
@@ -530,6 +533,9 @@ func (b *AESGCMBarrier) Unseal(ctx context.Context, key []byte) error {
 	}
 
 	// Verify the term is always just one
+	if len(out.Value) < 4 {
+		return errors.New("keyring record too short")
+	}
 	term := binary.BigEndian.Uint32(out.Value[:4])
 	if term != initialKeyTerm {
 		return errors.New("term mis-match")
